@@ -1002,7 +1002,7 @@ func (g *Gen) zeroObject(st *State, ref string, el types.Type) {
 	var paths [][]string
 	var tys []types.Type
 	g.leafPaths(el, nil, &paths, &tys)
-	if len(paths) <= 40 {
+	if len(paths) <= 120 {
 		for i, pa := range paths {
 			g.storePtr(st, &Ptr{Kind: pField, Base: ref, Struct: key, Path: pa, Ty: tys[i]}, Val{T: g.zero(tys[i]), S: g.sortOf(tys[i]), Ty: tys[i]})
 		}
